@@ -1409,6 +1409,12 @@ impl<R: std::io::Read> Decoder<R> {
                 (u64::from(block_size) == remaining || block_size > 14)
                     .then_some(header)
                     .ok_or(Error::ShortBlock)
+            })
+                .and_then(|header| {
+                // a frame may not hold more samples than the stream has left
+                (u64::from(u16::from(header.block_size)) <= remaining)
+                    .then_some(header)
+                    .ok_or(Error::TooManySamples)
             })?,
             // if total number of remaining samples isn't known,
             // treat an EOF error as the end of stream
